@@ -142,7 +142,13 @@ def fill_convexhull(bwimg):
 
     points = convexhull(bwimg)
     canvas = np.zeros_like(bwimg)
-    black = (1 if bwimg.dtype == np.bool_ else 255)
+    if bwimg.dtype == np.bool_:
+        black = 1
+    elif np.issubdtype(bwimg.dtype, np.integer):
+        # 255, or the largest value the type can hold (int8)
+        black = min(255, np.iinfo(bwimg.dtype).max)
+    else:
+        black = 255
     fill_polygon(points, canvas, black)
     # `bwimg` is interpreted as boolean: as an index, an integer array would select rows
     canvas[np.asanyarray(bwimg) != 0] = black
